@@ -280,8 +280,13 @@ func partitionKey(topic string, partition int32) string {
 	return fmt.Sprintf("%s:%d", topic, partition)
 }
 
+// consumerKeyEscaper keeps ':' inside a group or topic name from being read as
+// the key separator, so ("a:b","c") and ("a","b:c") get different keys.
+var consumerKeyEscaper = strings.NewReplacer("%", "%25", ":", "%3A")
+var consumerKeyUnescaper = strings.NewReplacer("%3A", ":", "%25", "%")
+
 func consumerKey(group, topic string, partition int32) string {
-	return fmt.Sprintf("%s:%s:%d", group, topic, partition)
+	return fmt.Sprintf("%s:%s:%d", consumerKeyEscaper.Replace(group), consumerKeyEscaper.Replace(topic), partition)
 }
 
 // CreateTopic implements Store.CreateTopic.
@@ -548,7 +553,7 @@ func parseConsumerKey(key string) (string, string, int32, bool) {
 	if err != nil {
 		return "", "", 0, false
 	}
-	return parts[0], parts[1], int32(partition), true
+	return consumerKeyUnescaper.Replace(parts[0]), consumerKeyUnescaper.Replace(parts[1]), int32(partition), true
 }
 
 // PutConsumerGroup implements Store.PutConsumerGroup.
